@@ -391,12 +391,12 @@ def _special(c1, c2):
     return min((c1, c2), key=_ORDER.index)
 
 
-def polar_near_half_turn(a, b):
-    """exact input class: the arc is within 1e-2 rad of half a turn (1 + cos < 5e-5) and the apex of its great circle
-    is within 1e-3 rad of a pole (|n_z| < 1e-3 |n|) – there the interpolation node3 = (1-d) n1 + d n2 of the closed
-    form cancels and the error is first order in latitude"""
-    rr, n = a[3] * b[3], cross(a, b)
-    return (rr + dot(a, b)) * 20000 < rr and n[2] * n[2] * 10**6 < dot(n, n)
+def near_half_turn(a, b):
+    """exact input class: the arc is within 1e-2 rad of half a turn (1 + cos < 5e-5) – there the interpolation
+    node3 = (1-d) n1 + d n2 of the closed form cancels; the resulting error along the circle is first order in
+    latitude when the apex is a pole and grows with tan(latitude of the apex) otherwise"""
+    rr = a[3] * b[3]
+    return (rr + dot(a, b)) * 20000 < rr
 
 
 def exact_lat(apex, num, den, sign):
@@ -444,8 +444,8 @@ def judge_extreme(ctx, impl, a, b, tag, tol, k=None):
                 sig = f"C14/extreme_gca_latitude/{which}/{branch}/arc={arc_class(A, B)}"
                 if impl.snapped(A, B):
                     sig = "C14/extreme_gca_latitude/end-point-snapped-to-pole"
-                elif branch == "apex" and polar_near_half_turn(A, B):
-                    sig = "C14/extreme_gca_latitude/apex-at-pole/arc-within-1e-2rad-of-half-turn"
+                elif branch == "apex" and near_half_turn(A, B):
+                    sig = "C14/extreme_gca_latitude/interior-extreme/arc-within-1e-2rad-of-half-turn"
                 _fail(ctx, sig,
                          f"extreme_gca_latitude(..., '{which}') = {got!r} but the {which}imum latitude over the arc is {want[which]!r} "
                          f"(error {err:.3g} rad, {name})", dict(inp, variant=name, rot=list(k), which=which), got, want[which], ["extreme_is_" + which])
